@@ -143,6 +143,8 @@ pub fn check_lookups(ctx: &mut Ctx, out: &mut Outcome, what: &str, o: &Ontology,
     queries.insert("é".into());
     queries.insert("日".into());
     queries.insert(" ".into());
+    queries.insert("  ".into());
+    queries.insert("\t".into());
     for d in f.omim.iter().take(8) {
         let cs: Vec<(usize, char)> = d.name.char_indices().collect();
         if cs.is_empty() {
@@ -155,6 +157,13 @@ pub fn check_lookups(ctx: &mut Ctx, out: &mut Outcome, what: &str, o: &Ontology,
             queries.insert(d.name[cs[a].0..end].to_string());
         }
         queries.insert(d.name.clone());
+        queries.insert(format!("{} ", d.name));
+        queries.insert(format!(" {}", d.name));
+        if let Some(w) = d.name.split(' ').next() {
+            queries.insert(format!("{w} "));
+            queries.insert(format!(" {w}"));
+            queries.insert(format!("\t{w}"));
+        }
         queries.insert(format!("{}!", d.name));
         queries.insert(d.name.to_uppercase());
     }
